@@ -249,10 +249,10 @@ def run_case(case, ctx):
         rmsf = d / "w1" / "_iblqc_ephysTimeRmsAP.rms.npy"
         tf = d / "w1" / "_iblqc_ephysTimeRmsAP.timestamps.npy"
         if ctx.check(satf.exists() and rmsf.exists() and tf.exists(), "C06.qc_files", "quality files missing"):
-            sat = np.load(satf)
+            sat = _qc(ctx, satf)
             ctx.check(sat.shape == (ns,) and np.array_equal(sat, flags), "C06.saturation_file",
                       lambda: f"saturation file shape {sat.shape}, differs from the rule at {np.flatnonzero(sat != flags)[:5] if sat.shape == (ns,) else 'n/a'}")
-            r_, t_ = np.load(rmsf), np.load(tf)
+            r_, t_ = _qc(ctx, rmsf), _qc(ctx, tf)
             ctx.check(r_.shape == (nbatches, n) and t_.shape == (nbatches,), "C06.rms_rows", lambda: f"rms {r_.shape} timestamps {t_.shape}, expected {nbatches} batches")
             if r_.shape == rms_ref.shape:
                 ctx.check(np.allclose(r_, rms_ref, rtol=5e-3, atol=1e-9) and np.allclose(t_, t_ref, rtol=1e-6), "C06.rms_values", "rms / timestamps differ from the reference")
@@ -268,11 +268,11 @@ def run_case(case, ctx):
             if not ctx.check(bw == Path(out1).read_bytes(), "C06.worker_bytes", lambda: f"{w} workers: output differs from 1 worker "
                              f"(sizes {len(bw)} vs {out1.stat().st_size}; first differing frame {_first_diff(bw, Path(out1).read_bytes(), nc_out)})"):
                 return
-            satw = np.load(d / f"w{w}" / "_iblqc_ephysSaturation.samples.npy")
+            satw = _qc(ctx, d / f"w{w}" / "_iblqc_ephysSaturation.samples.npy")
             keep = np.ones(ns, bool)
             keep[finals] = False
             ctx.check(satw.shape == (ns,) and np.array_equal(satw[keep], flags[keep]), "C06.saturation_file_workers", f"{w} workers: saturation file differs")
-            rw = np.load(d / f"w{w}" / "_iblqc_ephysTimeRmsAP.rms.npy")
+            rw = _qc(ctx, d / f"w{w}" / "_iblqc_ephysTimeRmsAP.rms.npy")
             ctx.check(rw.shape == (nbatches, n), "C06.rms_rows_workers", lambda: f"{w} workers: rms rows {rw.shape}, expected {nbatches}")
             chunk = int(ns / w)
             if any((i * chunk - TAPER) % stride for i in range(1, w)):
@@ -288,7 +288,7 @@ def run_case(case, ctx):
             both = Path(oa).read_bytes()
             one = raw1.tobytes()
             ctx.check(both == one + one, "C06.append", lambda: f"append: file is not run1 || run2 (size {len(both)} vs {2 * len(one)})")
-            ra = np.load(d / "w1" / "_iblqc_ephysTimeRmsAP.rms.npy")
+            ra = _qc(ctx, d / "w1" / "_iblqc_ephysTimeRmsAP.rms.npy")
             ctx.check(ra.shape == (2 * nbatches, n), "C06.append_rms", lambda: f"append: rms rows {ra.shape}, expected {2 * nbatches}")
 
 
@@ -310,10 +310,20 @@ def run_case(case, ctx):
             ctx.check(Path(orr).read_bytes() == raw1.tobytes(), "C06.rerun_over_existing",
                       lambda: f"non-append run over an existing longer output: file has {Path(orr).stat().st_size} bytes, a fresh run "
                               f"{raw1.nbytes}; first differing frame {_first_diff(Path(orr).read_bytes(), raw1.tobytes(), nc_out)}")
-            rr = np.load(d / "w1" / "_iblqc_ephysTimeRmsAP.rms.npy")
-            tr = np.load(d / "w1" / "_iblqc_ephysTimeRmsAP.timestamps.npy")
+            rr = _qc(ctx, d / "w1" / "_iblqc_ephysTimeRmsAP.rms.npy")
+            tr = _qc(ctx, d / "w1" / "_iblqc_ephysTimeRmsAP.timestamps.npy")
             ctx.check(rr.shape == (nbatches, n) and tr.shape == (nbatches,), "C06.rerun_rms_rows",
                       lambda: f"non-append run over existing quality files: rms {rr.shape} timestamps {tr.shape}, expected {nbatches} batches")
+
+
+def _qc(ctx, path):
+    """np.load of a quality file written by the code under test; a missing or unreadable file is a finding and gives an
+    empty array (every later shape comparison then fails as a finding too), never an exception in the oracle."""
+    try:
+        return np.load(path)
+    except Exception as e:  # noqa
+        ctx.fail("C06.qc_files", f"quality file {Path(path).name} missing or unreadable after the run ({type(e).__name__})")
+        return np.zeros(0)
 
 
 def _mute_zone(flags, half=4):
